@@ -16,7 +16,8 @@ SPEC = {
         ('K-upsert(filing)', 'upsert', '^upsert:'),
         ('K-prune(frame)', 'prune', 'prune:(delayed-frame|scores-and-stop|loop-.*untouched)'),
         ("non-emitting search files candidates under their own key in (column, depth)", 'ne_inner', r'^(file:|ne-inner:(layer|nothing|only-live))'),
-        ("_match_non_emitting_states_end(the emitting layer of the next column is written ONLY through upsert: an entry that successors point to is improved in place, never swapped for another object)", 'ne_end', r'^ne-end:(next-column-written|at-most-one-upsert|upsert-into)')],
+        ("_match_non_emitting_states_end(the emitting layer of the next column is written ONLY through upsert: an entry that successors point to is improved in place, never swapped for another object)", 'ne_end', r'^ne-end:(next-column-written|at-most-one-upsert|upsert-into)'),
+        ("increase_max_lattice_width touches the lattice only through one expansion round of match (no write to the lattice, the round counter or the early-stop index of its own; round bookkeeping is match's: one increment per call)", 'widen', r'^widen:(lattice-and-round|frame-only|matching-continued|expansion-round|match-called-on)')],
     'bounded': [
         ('well-formed-after-histories', suites.case_C09, 1500, 200000, RULE + '; ' + 'non-trivial = history of >= 2 operations (match, extend, widen, continue_with_distance after an early stop)', 'histories <= 4 operations')],
 }
